@@ -134,7 +134,7 @@ def run(ctx):
             if bp.io_nontrivial(inst):
                 ctx.nontriv(bp.io_key(inst))
     bp.tick(ctx, "replay_cases")
-    inputs = bp.sparse_corpus(ctx, 10 if q else 150) + bp.corpus(ctx, 2 if q else 16, 1 if q else 6, small=q)
+    inputs = bp.sparse_corpus(ctx, 24 if q else 150) + bp.corpus(ctx, 2 if q else 16, 1 if q else 6, small=q)
     for k, inp in enumerate(inputs):
         for method in ("inside_outside", "maximization"):
             space_pair(ctx, inp.name, inp.ts, inp.mu, inp.Ne, method, 1e-8 if k % 2 == 0 else 1e-3,
